@@ -83,10 +83,21 @@ def run(tier):
                                 G.rec_bec2_write(rec, seams, orc, g, metas, encs_w, C.enc_specs(plan))
         # (c) spliced headers
         nspl = 0
-        for _ in range(6 if tier == "quick" else 40):
+        # key pairs: random pairs, and pairs that differ in exactly ONE byte position (every position) or one bit:
+        # a comparison that looks at only part of the key must still see them as different
+        base_key = G.key_with_class(r, "generic")
+        near = []
+        for pos in range(16):
+            kk = bytearray(base_key)
+            kk[pos] ^= (1 << r.randrange(8)) if r.random() < 0.5 else (r.randrange(1, 256))
+            near.append((base_key, bytes(kk)))
+        pairs = [None] * (6 if tier == "quick" else 40) + near
+        for pair in pairs:
             ka, kb2 = r.sample(["cust", "update", "ecc"], 2)
             pa = G.Plan(r, rcpts, [ka], explicit_key=True)
             pb = G.Plan(r, rcpts, [kb2], explicit_key=True)
+            if pair:
+                pa.key, pb.key = pair
             fa = Bec2File(G.gen_content(r), pa.blocks, pa.key)
             fb = Bec2File(fa.bf3file, pb.blocks, pb.key)
             sa, sb = io.StringIO(), io.StringIO()
